@@ -56,6 +56,39 @@ theorem C24_cmdline_partial (exe : Str) (args : List Str)
   rw [readable_bare exe h0.1 h0.2 _, lex_word_tail cmdlineArg args hr]
   simp
 
+/-- PARTIAL, multi-word executables (list / tuple executable such as `['bash', '-c', 'echo hi']`): the model's
+    `cmdlineOf` renders the WHOLE argv — executable words included — and only `argv[0]` is exempt from the
+    quoting, as in the source.  For an executable of any number of words followed by any number of arguments:
+    if the first word is non-empty and inert and every later executable word and every argument is
+    `CmdlineSafe` (in particular: may contain plain spaces), splitting the displayed line gives back the argv. -/
+theorem C24_cmdline_multiword_partial (w0 : Str) (exeRest args : List Str)
+    (h0 : w0 ≠ [] ∧ ∀ c ∈ w0, inertChar c = true)
+    (hw : ∀ a ∈ exeRest, CmdlineSafe a) (ha : ∀ a ∈ args, CmdlineSafe a) :
+    shlexSplit (cmdlineOf ((w0 :: exeRest) ++ args)) = .ok ((w0 :: exeRest) ++ args) := by
+  rw [List.cons_append]
+  exact C24_cmdline_partial w0 (exeRest ++ args) h0 (fun a h => by
+    rcases List.mem_append.mp h with h | h
+    · exact hw a h
+    · exact ha a h)
+
+/-- the same through the model of `ShellTask.cmdline` itself: whatever argv `_command_args` returns for a
+    definition with a multi-word executable, the displayed line is `cmdlineOf` of that whole argv -/
+theorem C24_cmdline_is_whole_argv (exe : List Str) (bs : List Bound) (app : List Str) (argv : List Str)
+    (h : commandArgs exe bs app = .ok argv) : cmdline exe bs app = .ok (cmdlineOf argv) := by
+  simp [cmdline, h]
+
+/-- documentation witness: a rendering that joins the first `n` argv entries (the executable words) bare and
+    quotes only what follows (NOT the pinned code) is unfaithful as soon as an executable word has a space -/
+def cmdlineExeBare (n : Nat) (argv : List Str) : Str :=
+  joinSp (argv.take n) ++ (argv.drop n).flatMap (fun x => ' ' :: cmdlineArg x)
+
+theorem C24_witness_exe_words_bare :
+    shlexSplit (cmdlineOf ["bash".toList, "-c".toList, "echo hi".toList, "a b".toList])
+      = .ok ["bash".toList, "-c".toList, "echo hi".toList, "a b".toList]
+    ∧ shlexSplit (cmdlineExeBare 3 ["bash".toList, "-c".toList, "echo hi".toList, "a b".toList])
+      = .ok ["bash".toList, "-c".toList, "echo".toList, "hi".toList, "a b".toList] := by
+  refine ⟨by decide, by decide⟩
+
 /-! ### witnesses (D15) -/
 
 /-- a tab is not quoted: the argument falls apart -/
@@ -90,6 +123,7 @@ example : CmdlineSafe "a b  c$*;".toList ∧ CmdlineSafe "$HOME;*".toList ∧ ¬
   decide
 example : shlexSplit (cmdlineOf ["exe".toList, "a b".toList, "-x".toList]) = .ok ["exe".toList, "a b".toList, "-x".toList] := by
   decide
+example : CmdlineSafe "echo hi".toList ∧ CmdlineSafe "-c".toList := by decide
 example : joinSp (["exe".toList, "it's".toList, [], "a\tb".toList].map shQuote) = "exe 'it'\"'\"'s' '' 'a\tb'".toList := by
   decide
 
